@@ -2,9 +2,14 @@
   C04 stated on the run of the TRANSLATED code: source of `intersection.py` / `ast_visitor.py` (dense-time offline)
   -> (harness/py2lean.py) `Gen.Dense.*` -> `evalAlgG` (Rtamt/Py/RunDn.lean, semantics Rtamt/Py/Dn.lean)
   = `evalAlg` (`genD_eval`, RtamtProofs/GenDense.lean) = `rhoD` (`C04_alg_eq_rhoD_partial`, RtamtProofs/Dense/AlgMain.lean).
+
+  C06 (interface-aware robustness semantics) the same way: `visitPredicate` of the interface-aware visitors
+  -> `Gen.Dense.visitPredicate_outRob` (`gen_visitPredicate_outRob_insensitive`, RtamtProofs/GenDenseIA.lean) inside `genD_eval`,
+  composed with `C06_alg_dense_offline_partial` (RtamtProofs/Dense/AlgIA.lean).
 -/
 import RtamtProofs.GenDense
 import RtamtProofs.Dense.AlgMain
+import RtamtProofs.Dense.AlgIA
 
 namespace Rtamt.Py.Dn
 open Rtamt Val Rtamt.Dense Rtamt.Dense.Alg
@@ -20,8 +25,7 @@ theorem noIA_denseSupported (φ : F α) (h : noIA φ = true) : φ.denseSupported
       simp only [noIA, Bool.and_eq_true] at h
       obtain ⟨⟨h0, h1⟩, h2⟩ := h
       simp only [F.denseSupported, Bool.and_eq_true]
-      refine ⟨⟨?_, ih1 h1⟩, ih2 h2⟩
-      cases op <;> simp_all
+      exact ⟨ih1 h1, ih2 h2⟩
   | tmp1 _ φ ih => simpa [F.denseSupported, noIA] using ih (by simpa [noIA] using h)
   | tmp2 _ φ ψ ih1 ih2 =>
       simp only [noIA, Bool.and_eq_true] at h
@@ -47,5 +51,23 @@ theorem C04_translated_eq_rhoD_partial (cfg : DCfg) (hs : 0 ≤ cfg.scale) (w : 
   obtain ⟨s, he, h1, h2, h3⟩ := C04_alg_eq_rhoD_partial cfg hs w φ hsup hia hnp hw h0 hsub
   obtain ⟨N, hN⟩ := genD_eval cfg w φ (noIA_denseSupported φ hia)
   exact ⟨N, s, fun fuel hf => by rw [hN fuel hf, he], h1, h2, h3⟩
+
+/-- **C06 on the translated source**, dense offline, robustness semantics (hypotheses as in `C06_alg_dense_offline_partial`):
+    with enough fuel the translated visitor - the insensitive predicates (`iaT`: `.predSat`) run through the translated
+    `visitPredicate` of the interface-aware robustness visitor - returns on the transformed formula exactly what the mirror
+    returns, lists and exceptions, and every list it returns is the dense semantics of that formula. -/
+theorem C06_translated_dense_offline_partial (cfg : DCfg) (hs : 0 ≤ cfg.scale) (w : DEnv α) (sem : Sem)
+    (inputs : List String) (φ : F α) (hsem : sem = .outRob ∨ sem = .inRob ∨ sem = .standard)
+    (hsup : supported (iaT sem inputs φ) = true) (hv : noVac φ = true)
+    (hw : w.WF (iaT sem inputs φ).vars) (h0 : StartsAt0 w (iaT sem inputs φ).vars)
+    (hsub : ∀ a b : α, Val.neg (Val.sub a b) = Val.sub b a)
+    (hcmp : ∀ (c : Cmp) (a b : α), satOfDiff c (Val.sub a b) = c.holds a b) :
+    ∃ N, ∀ fuel, N ≤ fuel →
+      evalAlgG fuel cfg w (iaT sem inputs φ) = evalAlg cfg w (iaT sem inputs φ) ∧
+      ∀ s : ASig α, evalAlgG fuel cfg w (iaT sem inputs φ) = .ok s → Denotes s 0 (rhoD cfg w (iaT sem inputs φ)) := by
+  obtain ⟨N, hN⟩ := genD_eval cfg w (iaT sem inputs φ) (F.denseSupported_all _)
+  refine ⟨N, fun fuel hf => ⟨hN fuel hf, fun s he => ?_⟩⟩
+  rw [hN fuel hf] at he
+  exact C06_alg_dense_offline_partial cfg hs w sem inputs φ hsem hsup hv hw h0 hsub hcmp he
 
 end Rtamt.Py.Dn
